@@ -76,6 +76,39 @@ def sumProbs : List (Nat × Int) → Int
   | [] => 0
   | c :: cs => c.2 + sumProbs cs
 
+/-! ## The cumulative-sum walk, specified without the loop's bookkeeping -/
+
+/-- Running sum of the probabilities of `l` on top of `cum`, with the loop's addition. -/
+def runSum (add : Int → Int → Int) (cum : Int) (l : List (Nat × Int)) : Int :=
+  l.foldl (fun c x => add c x.2) cum
+
+/-- First candidate whose cumulative sum exceeds the draw `r`. -/
+def firstExceed (add : Int → Int → Int) (r : Int) : Int → List (Nat × Int) → Option (Nat × Int)
+  | _, [] => none
+  | cum, c :: cs => if r < add cum c.2 then some c else firstExceed add r (add cum c.2) cs
+
+/-- Last candidate with probability `> 0` in `cs`, or `last` if there is none. -/
+def lastPosFrom (last : Option (Nat × Int)) (cs : List (Nat × Int)) : Option (Nat × Int) :=
+  cs.foldl (fun acc c => if 0 < c.2 then some c else acc) last
+
+def lastPos (cs : List (Nat × Int)) : Option (Nat × Int) := lastPosFrom none cs
+
+/-! ## What the sampler needs from softmax
+
+A candidate with its logit: `(token id, logit, probability)`; logit `none` is −∞ (excluded by
+a filter or masked), `some k` an order-preserving integer image of a finite float. -/
+
+/-- The facts about `probs = softmax(logits)` used by the theorems, as a checkable predicate
+on concrete data (`one` is the scale of probability 1, `tol` the allowed deviation of the
+exact sum from 1): non-negative; −∞ logits get probability 0; the exact sum is within `tol`
+of 1; monotone in the logit. -/
+structure SoftmaxFacts (cs : List (Nat × Option Int × Int)) (one tol : Int) : Prop where
+  nonneg : ∀ c ∈ cs, 0 ≤ c.2.2
+  excluded : ∀ c ∈ cs, c.2.1 = none → c.2.2 = 0
+  sum : one - tol ≤ sumProbs (cs.map (fun c => (c.1, c.2.2))) ∧
+        sumProbs (cs.map (fun c => (c.1, c.2.2))) ≤ one + tol
+  mono : ∀ c ∈ cs, ∀ d ∈ cs, ∀ a b, c.2.1 = some a → d.2.1 = some b → a ≤ b → c.2.2 ≤ d.2.2
+
 /-! ## Seeded sampling as a state-passing function
 
 `Multinomial` holds an RNG state and a scratch buffer.  `next` is the RNG transition
